@@ -315,6 +315,19 @@ theorem e2e_composed_cancelled (c : Cfg) (evs : List Ev) (q0 : QState) (J : JSta
     · exact h
     · exact absurd (hsame i' hk) (hnone i' hg)
 
+/-- **The extractor never raises in a composed run** — in particular never the
+`ValueError('Duplicate epochs not supported')` of a key re-used before its removal was seen: the
+queue presents a (start, stimulus) again only after cancelling the earlier trial, and the
+notifications reach the extractor in issue order.  Every epoch handed on has length `L` and is
+`stream[s, s+L)` of the request it carries. -/
+theorem e2e_composed_never_raises (c : Cfg) (evs : List Ev) (q0 : QState) (J : JState)
+    (hstart : Start q0) (hrun : jrun c evs (JState.init c q0) = .ok J) (henc : EncInj c)
+    (hside : SideOK c J.q.added) :
+    ∀ out ∈ (Extract.run (State.init c.B) J.eops).2, ∃ batch fired, out = .ok batch fired ∧
+      ∀ e ∈ batch, e = epochOf (streamOf J.eops) e.req ∧ e.req ∈ allReqs J.eops ∧ e.data.length = c.L :=
+  metadata_paired_seq c.B c.L J.eops
+    (JInv_run c henc evs (JInv_init c q0 hstart) hrun (fun _ => hside)).n.valid
+
 /-- a history without `pause(m)` (pause(), resume(), resume(m) are allowed) -/
 def NoPause (evs : List Ev) : Prop := ∀ ev ∈ evs, isPause ev = false
 
